@@ -1420,11 +1420,12 @@ class Covout:
 
         for k, v in self.progs.items():
             self.progs[k] = v + self.sigma * np.random.randn(1)[0]
-        # Perturb the interactions
+        # Perturb the interactions (the absolute outcomes in the interaction string - `update_outcomes()` below then re-derives the values relative to the baseline)
         if self._interactions:
-            for k, v in self.interactions.items():
-                self.interactions[k] = v + self.sigma * np.random.randn(1)[0]
-            tokens = ["%s=%.4f" % ("+".join(k), v) for k, v in self.interactions.items()]
+            tokens = []
+            for interaction in self.imp_interaction.split(","):
+                combo, val = interaction.split("=")
+                tokens.append("%s=%s" % (combo.strip(), repr(float(val) + self.sigma * np.random.randn(1)[0])))
             self.imp_interaction = ",".join(tokens)
 
         self.update_outcomes()
